@@ -2,6 +2,7 @@ package main
 
 import (
 	"fmt"
+	"sort"
 	"go/types"
 	"regexp"
 	"strings"
@@ -14,6 +15,7 @@ type TypeReg struct {
 	order     []*structInfo
 	tags      map[string]int
 	tagTypes  []types.Type
+	tagUsed   map[int]bool
 	injDecls  map[string]bool
 	extraDecl []string
 	typeIds   map[string]string
@@ -46,13 +48,48 @@ func (r *TypeReg) typeId(t types.Type) string {
 	if id, ok := typeIdMap[key]; ok {
 		return id
 	}
+	// deterministic whatever the order in which executors meet types: the short name (package name +
+	// type name) plus, for package-qualified types, a hash of the full path
 	id := shortTypeName(t)
+	if strings.Contains(key, ".") {
+		id = fmt.Sprintf("%s_%s", id, hash36(key, 3))
+	}
 	for n := 2; typeIdUse[id]; n++ {
-		id = fmt.Sprintf("%s_%d", shortTypeName(t), n)
+		id = fmt.Sprintf("%s_%s_%d", shortTypeName(t), hash36(key, 3), n)
 	}
 	typeIdUse[id] = true
 	typeIdMap[key] = id
 	return id
+}
+
+// hash36: n base-36 digits of the FNV-1a hash of s.
+func hash36(s string, n int) string {
+	h := uint64(14695981039346656037)
+	for i := 0; i < len(s); i++ {
+		h ^= uint64(s[i])
+		h *= 1099511628211
+	}
+	const digits = "0123456789abcdefghijklmnopqrstuvwxyz"
+	out := make([]byte, n)
+	for i := range out {
+		out[i] = digits[h%36]
+		h /= 36
+	}
+	return string(out)
+}
+
+// hashDec: a decimal number below 10^n derived from s.
+func hashDec(s string, n int) int {
+	h := uint64(14695981039346656037)
+	for i := 0; i < len(s); i++ {
+		h ^= uint64(s[i])
+		h *= 1099511628211
+	}
+	m := uint64(1)
+	for i := 0; i < n; i++ {
+		m *= 10
+	}
+	return int(h % m)
 }
 
 func newTypeReg() *TypeReg {
@@ -139,8 +176,13 @@ func (r *TypeReg) structOf(t types.Type) *structInfo {
 	si, ok := structAll[key]
 	if !ok {
 		st := t.Underlying().(*types.Struct)
-		si = &structInfo{id: len(structAll), st: st, typ: t}
+		// the number in the sort name is a hash of the type, not an arrival order: the same name in every run
+		si = &structInfo{id: hashDec(key, 5), st: st, typ: t}
 		si.name = fmt.Sprintf("S%d_%s", si.id, shortTypeName(t))
+		for structByNm[si.name] != nil {
+			si.id++
+			si.name = fmt.Sprintf("S%d_%s", si.id, shortTypeName(t))
+		}
 		si.ctor = "mk" + si.name
 		structAll[key] = si
 		structByNm[si.name] = si
@@ -194,6 +236,95 @@ func (r *TypeReg) datatypeDecls() string {
 		b.WriteString("))))\n")
 	}
 	for _, d := range r.extraDecl {
+		b.WriteString(d)
+		b.WriteByte('\n')
+	}
+	return b.String()
+}
+
+// datatypeDeclsFor: only the struct datatypes (and inj/proj functions) whose symbols occur in `used`,
+// closed under field-sort dependencies, in an order that depends on names only. Which datatypes an
+// executor happens to know (it may have met a type while computing a memoised callee summary, or
+// not) must not change the script.
+func (r *TypeReg) datatypeDeclsFor(used map[string]bool) string {
+	byName := map[string]*structInfo{}
+	for _, si := range r.order {
+		byName[si.name] = si
+	}
+	need := map[string]bool{}
+	var mark func(si *structInfo)
+	mark = func(si *structInfo) {
+		if need[si.name] {
+			return
+		}
+		need[si.name] = true
+		for _, fs := range si.fsorts {
+			for _, nm := range structNameRe.FindAllString(fs, -1) {
+				if d := byName[nm]; d != nil {
+					mark(d)
+				}
+			}
+		}
+	}
+	for _, si := range r.order {
+		hit := used[si.name] || used[si.ctor]
+		for _, f := range si.fields {
+			if used[f] {
+				hit = true
+			}
+		}
+		if hit {
+			mark(si)
+		}
+	}
+	var extra []string
+	for _, d := range r.extraDecl {
+		syms := symbolsOf(d)
+		if len(syms) > 1 && used[syms[1]] {
+			extra = append(extra, d)
+			for _, nm := range structNameRe.FindAllString(d, -1) {
+				if x := byName[nm]; x != nil {
+					mark(x)
+				}
+			}
+		}
+	}
+	sort.Strings(extra)
+	var names []string
+	for n := range need {
+		names = append(names, n)
+	}
+	sort.Strings(names)
+	var b strings.Builder
+	b.WriteString(preludeDatatypes)
+	done := map[string]bool{}
+	var emit func(si *structInfo)
+	emit = func(si *structInfo) {
+		if done[si.name] {
+			return
+		}
+		done[si.name] = true
+		for _, fs := range si.fsorts {
+			for _, nm := range structNameRe.FindAllString(fs, -1) {
+				if d := byName[nm]; d != nil {
+					emit(d)
+				}
+			}
+		}
+		if len(si.fields) == 0 {
+			fmt.Fprintf(&b, "(declare-datatypes ((%s 0)) (((%s))))\n", si.name, si.ctor)
+			return
+		}
+		fmt.Fprintf(&b, "(declare-datatypes ((%s 0)) (((%s", si.name, si.ctor)
+		for i, f := range si.fields {
+			fmt.Fprintf(&b, " (%s %s)", f, si.fsorts[i])
+		}
+		b.WriteString("))))\n")
+	}
+	for _, n := range names {
+		emit(byName[n])
+	}
+	for _, d := range extra {
 		b.WriteString(d)
 		b.WriteByte('\n')
 	}
@@ -254,7 +385,15 @@ func (r *TypeReg) tagOf(t types.Type) int {
 	if id, ok := r.tags[key]; ok {
 		return id
 	}
-	id := len(r.tags) + 1
+	// a hash of the type, not an arrival number: the same tag in every executor and every run
+	id := hashDec(key, 7) + 1
+	for r.tagUsed[id] {
+		id++
+	}
+	if r.tagUsed == nil {
+		r.tagUsed = map[int]bool{}
+	}
+	r.tagUsed[id] = true
 	r.tags[key] = id
 	r.tagTypes = append(r.tagTypes, t)
 	return id
